@@ -3,11 +3,14 @@
 
     server/control.go    NewControl (poolCount, workConnCh capacity), Start (advance ReqWorkConn),
                          RegisterWorkConn (non-blocking send, recover), GetWorkConn (take | request; wait | timeout),
+                         RegisterProxy / CloseProxy (the session's proxy map over its whole history: no request),
                          worker (close pool, drain, close proxies, done)
     server/service.go    RegisterWorkConn (GetByID, plugin, VerifyNewWorkConn), handleConnection (close on error),
                          RegisterControl (Del after WaitClosed)
     server/proxy/proxy.go GetWorkConnFromPool (retry loop, shadowed err), handleUserTCPConnection
     pkg/util/vhost/vhost.go Muxer.handle / Listener.Accept / Listener.Close   (namespace Handoff below)
+    pkg/util/net/listener.go InternalListener PutConn / Accept / Close; server/visitor/visitor.go NewConn /
+                         CloseListener; the accept loop of startCommonTCPListenersHandler   (namespace VListen below)
 
   ONE small-step transition system per session.  A label is one atomic action of the Go code (one
   channel operation, one critical section, or the stretch between two gate points).  `step` returns
@@ -103,19 +106,23 @@ structure St where
   dispDone : Bool := false      -- msgDispatcher.Done() closed (control connection gone)
   poolClosed : Bool := false    -- close(ctl.workConnCh)
   drained : Bool := false       -- the `for range` of worker finished
-  proxyOpen : Bool := true      -- the proxy listener still accepts (worker closes it after the drain)
+  proxyOpen : Bool := false     -- ctl.proxies holds the tcp proxy the users dial (proxy 0): its listener accepts
+  px : List Nat := []           -- the other entries of ctl.proxies (names > 0)
+  pxClosed : Bool := false      -- worker closed every proxy of the session (after the drain)
   inManager : Bool := true      -- ctlManager.GetByID finds the session (Del runs after doneCh)
   w : Tbl W := {}
   u : Tbl U := {}
   reqs : Nat := 0               -- ReqWorkConn messages handed to the dispatcher before dispDone
+  adv : Nat := 0                -- ghost: those of them sent in advance (on behalf of no user connection)
+  ureq : Nat := 0               -- ghost: those sent by GetWorkConn for a user connection (replacement / empty pool)
   lateSend : Bool := false      -- ghost: some send met the closed pool
   panicked : Bool := false      -- unrecovered panic: frps is gone
 deriving Repr
 
 def St.cap (s : St) : Nat := capOf s.pc
 
-/-- a session right after `Start()`: the advance requests are out -/
-def init (pc : Int) (T : Nat) : St := { pc := pc, T := T, reqs := advance pc }
+/-- a session right after `Start()`: the advance requests are out, no proxy is registered yet -/
+def init (pc : Int) (T : Nat) : St := { pc := pc, T := T, reqs := advance pc, adv := advance pc }
 
 inductive Label
   | dial (c : Nat)
@@ -130,6 +137,8 @@ inductive Label
   | startMsg (u : Nat) (ok : Bool)
   | joinEnd (u : Nat)
   | dispDone | closePool | drain | closeProxies | del
+  | regProxy (p : Nat)       -- NewProxy handled: RegisterProxy succeeded (p = 0: the proxy the users dial)
+  | closeProxy (p : Nat)     -- CloseProxy handled
 deriving DecidableEq, Repr
 
 inductive Res
@@ -158,7 +167,8 @@ def recvFor (s : St) (u k : Nat) : Option (St × Res) :=
   | c :: rest =>
     -- `workConn, ok = <-ctl.workConnCh`; then `_ = ctl.msgDispatcher.Send(&msg.ReqWorkConn{})`
     some ({ s with pool := rest, w := s.w.set c (.taken u), u := s.u.set u (.holding k c),
-                   reqs := if s.dispDone then s.reqs else s.reqs + 1 }, .got c)
+                   reqs := if s.dispDone then s.reqs else s.reqs + 1,
+                   ureq := if s.dispDone then s.ureq else s.ureq + 1 }, .got c)
   | [] =>
     if s.poolClosed then
       -- `!ok` ⇒ ErrCtlClosed ⇒ handleUserTCPConnection returns, deferred userConn.Close()
@@ -206,7 +216,8 @@ def step (fx : Fix) (s : St) : Label → Option (St × Res)
       if s.pool ≠ [] ∨ s.poolClosed then none
       else if ok then
         -- `msgDispatcher.Send(&msg.ReqWorkConn{})` accepted
-        some ({ s with u := s.u.set u (.waiting k 0), reqs := if s.dispDone then s.reqs else s.reqs + 1 }, .waiting)
+        some ({ s with u := s.u.set u (.waiting k 0), reqs := if s.dispDone then s.reqs else s.reqs + 1,
+                       ureq := if s.dispDone then s.ureq else s.ureq + 1 }, .waiting)
       else if s.dispDone then
         -- Send returned io.EOF ⇒ "control is already closed"
         some ({ s with u := s.u.set u .closed }, .closed)
@@ -254,9 +265,23 @@ def step (fx : Fix) (s : St) : Label → Option (St × Res)
     else some ({ s with pool := [], drained := true,
                         w := s.pool.foldl (fun t c => t.set c .closed) s.w }, .none)
   | .closeProxies =>
-    if s.panicked ∨ s.drained = false ∨ s.proxyOpen = false then none else some ({ s with proxyOpen := false }, .none)
+    -- `for _, pxy := range ctl.proxies { pxy.Close() … }` under ctl.mu
+    if s.panicked ∨ s.drained = false ∨ s.pxClosed then none
+    else some ({ s with proxyOpen := false, px := [], pxClosed := true }, .none)
   | .del =>
-    if s.panicked ∨ s.proxyOpen ∨ s.inManager = false then none else some ({ s with inManager := false }, .none)
+    if s.panicked ∨ s.pxClosed = false ∨ s.inManager = false then none else some ({ s with inManager := false }, .none)
+  | .regProxy p =>
+    -- handleNewProxy runs inside the dispatcher's read loop: only while the control connection lives.
+    -- RegisterProxy: pxy.Run(), `ctl.proxies[name] = pxy`.  It asks the client for NOTHING: the advance
+    -- requests were sent once, by Start().
+    if s.panicked ∨ s.dispDone then none
+    else if p = 0 then (if s.proxyOpen then none else some ({ s with proxyOpen := true }, .none))
+    else if p ∈ s.px then none else some ({ s with px := p :: s.px }, .none)
+  | .closeProxy p =>
+    -- CloseProxy: pxy.Close() (the listener; established bridges and waiting handlers go on), delete from the map
+    if s.panicked ∨ s.dispDone then none
+    else if p = 0 then (if s.proxyOpen then some ({ s with proxyOpen := false }, .none) else none)
+    else if p ∈ s.px then some ({ s with px := s.px.erase p }, .none) else none
 
 /-- run a label list; `none` if some label is not enabled -/
 def run (fx : Fix) : St → List Label → Option St
@@ -329,4 +354,149 @@ inductive Reach (fx : Fix) : St → Prop
   | step {s s' l} : Reach fx s → step fx s l = some s' → Reach fx s'
 
 end Handoff
+
+/-! ## visitor-listener accept path (pkg/util/net/listener.go, server/visitor/visitor.go, server/proxy/proxy.go)
+
+  One stcp / sudp / xtcp proxy: its `InternalListener` (buffered `acceptCh`), the visitor manager's entry
+  for it, and the accept goroutine of `startCommonTCPListenersHandler`.  A label is one call of
+  `Manager.NewConn` (→ `PutConn`), one `Accept()` of the loop, `listener.Close()` (BaseProxy.Close) or
+  `VisitorManager.CloseListener` (STCPProxy.Close, after BaseProxy.Close). -/
+namespace VListen
+open Pool (Tbl)
+
+/-- a visitor connection, seen from frps -/
+inductive V
+  | queued      -- sitting in acceptCh
+  | accepted    -- returned by Accept: `go handleUserTCPConnection(c)` owns it (bridged or closed: Pool model)
+  | closed      -- closed by PutConn (queue full) or by the caller of NewConn (error returned)
+deriving DecidableEq, Repr
+
+structure St where
+  cap : Nat := 128               -- `make(chan net.Conn, 128)`
+  q : List Nat := []             -- acceptCh, head = next to be received
+  chClosed : Bool := false       -- `close(l.acceptCh)`
+  registered : Bool := true      -- visitor.Manager.listeners holds the name
+  loopExit : Bool := false       -- the accept goroutine has returned ("listener is closed")
+  c : Tbl V := {}
+deriving Repr
+
+inductive Label
+  | put (c : Nat)     -- Manager.NewConn for this name
+  | accept            -- one round of the accept loop
+  | closeL            -- InternalListener.Close (idempotent)
+  | unregister        -- Manager.CloseListener
+deriving DecidableEq, Repr
+
+inductive Res
+  | none | queued | full | err | got (c : Nat) | exit
+deriving DecidableEq, Repr
+
+def step (s : St) : Label → Option (St × Res)
+  | .put c =>
+    if (s.c.get c).isSome then none
+    else if s.registered = false then
+      -- "custom listener for [name] doesn't exist": RegisterVisitorConn fails, handleConnection closes
+      some ({ s with c := s.c.set c .closed }, .err)
+    else if s.chClosed then
+      -- the send case of the select panics on the closed channel; PanicToError turns it into
+      -- "put conn error: listener is closed"; NewConn returns it and handleConnection closes
+      some ({ s with c := s.c.set c .closed }, .err)
+    else if s.q.length < s.cap then
+      some ({ s with q := s.q ++ [c], c := s.c.set c .queued }, .queued)
+    else
+      -- `default: conn.Close()`, nil is returned
+      some ({ s with c := s.c.set c .closed }, .full)
+  | .accept =>
+    if s.loopExit then none else
+    match s.q with
+    | c :: rest =>
+      -- `conn, ok := <-l.acceptCh` yields the buffered connections first, also after close(acceptCh)
+      some ({ s with q := rest, c := s.c.set c .accepted }, .got c)
+    | [] =>
+      -- `!ok`: "listener closed" ⇒ the loop logs and returns;  open and empty: Accept blocks
+      if s.chClosed then some ({ s with loopExit := true }, .exit) else none
+  | .closeL => some ({ s with chClosed := true }, .none)
+  | .unregister =>
+    if s.chClosed ∧ s.registered then some ({ s with registered := false }, .none) else none
+
+def run : St → List Label → Option St
+  | s, [] => some s
+  | s, l :: ls => match step s l with
+    | none => none
+    | some (s', _) => run s' ls
+
+inductive Reach (cap : Nat) : St → Prop
+  | init : Reach cap { cap := cap }
+  | step {s s' l r} : Reach cap s → step s l = some (s', r) → Reach cap s'
+
+end VListen
+
+/-! ## group-listener accept path (server/group/tcp.go; tcpmux.go has the same shape)
+
+  One load-balancing group: the shared real listener (kernel accept queue), the group worker that
+  takes one connection at a time and sits in the UNBUFFERED send `tg.acceptCh <- c`, the members'
+  `Accept`, and `CloseListener` of the last member (`close(acceptCh)`, `tcpLn.Close()`).
+  (The join / leave protocol with its two locks is C13's `Frp.Group`; here only who owns a user
+  connection.) -/
+namespace GroupAccept
+open Pool (Tbl)
+
+inductive G
+  | backlog     -- completed handshake, in the kernel queue of tcpLn
+  | held        -- returned by tcpLn.Accept(), the worker is in the send
+  | delivered   -- received by a member's Accept: the proxy's handler owns it
+  | closed      -- refused, reset with the listener, or closed by the worker after the failed send
+deriving DecidableEq, Repr
+
+structure St where
+  members : Nat := 0
+  backlog : List Nat := []
+  hold : Option Nat := none
+  c : Tbl G := {}
+deriving Repr
+
+inductive Label
+  | listen            -- a member joins (the first one listens and starts the worker)
+  | conn (c : Nat)    -- a user connects to the group's port
+  | workerAccept      -- the worker takes the next connection and enters the send
+  | recv              -- some member's Accept receives the held connection
+  | leave             -- a member's Close; the last one closes channel and listener
+deriving DecidableEq, Repr
+
+def step (s : St) : Label → Option St
+  | .listen => some { s with members := s.members + 1 }
+  | .conn c =>
+    if (s.c.get c).isSome then none
+    else if s.members = 0 then some { s with c := s.c.set c .closed }       -- nobody listens: refused
+    else some { s with backlog := s.backlog ++ [c], c := s.c.set c .backlog }
+  | .workerAccept =>
+    match s.hold, s.backlog with
+    | none, c :: rest => if s.members = 0 then none else some { s with backlog := rest, hold := some c, c := s.c.set c .held }
+    | _, _ => none
+  | .recv =>
+    match s.hold with
+    | some c => if s.members = 0 then none else some { s with hold := none, c := s.c.set c .delivered }
+    | none => none
+  | .leave =>
+    if s.members = 0 then none
+    else if s.members = 1 then
+      -- close(acceptCh): the worker's send panics, PanicToError, `c.Close()`; tcpLn.Close(): the kernel
+      -- resets every connection still in the accept queue
+      let t := match s.hold with
+        | some c => s.c.set c .closed
+        | none => s.c
+      some { members := 0, backlog := [], hold := none, c := s.backlog.foldl (fun t c => t.set c .closed) t }
+    else some { s with members := s.members - 1 }
+
+def run : St → List Label → Option St
+  | s, [] => some s
+  | s, l :: ls => match step s l with
+    | none => none
+    | some s' => run s' ls
+
+inductive Reach : St → Prop
+  | init : Reach {}
+  | step {s s' l} : Reach s → step s l = some s' → Reach s'
+
+end GroupAccept
 end Frp
